@@ -25,6 +25,8 @@ def evaluate(t, env: dict[str, int] | None = None) -> int:
     if k == "lit":
         return t[1]
     if k == "id":
+        if callable(env):
+            return env(t[1])  # may raise KeyError: the caller decides what an unbound name means
         if env is None or t[1] not in env:
             raise Undefined(f"unbound {t[1]}")
         return env[t[1]]
